@@ -67,9 +67,13 @@ func pickMsgs(name string, enveloped bool, declaredComp bool, unaryKind bool) []
 	}
 	msgs := make([]wireMsg, n)
 	for i := range msgs {
-		p := maxP
-		if verifTier() == 1 {
+		// sizes include the empty message; quick fixes the two-message shape to (non-empty, empty)
+		var p int
+		switch {
+		case verifTier() == 1 || n == 1:
 			p = verifChoose(name+".size", maxP+1)
+		case i == 0:
+			p = 1
 		}
 		msgs[i].abstract = nondetBytes(name, p)
 		if declaredComp && enveloped {
@@ -97,11 +101,22 @@ func hC01Pipe() {
 	}
 	target, codec, comp := refNegotiate(cfg)
 	unaryKind := cfg.kind == fkUnary
-	reqMsgs := pickMsgs("req", clientEnveloped(cfg.client), cfg.clientComp, unaryKind)
-	// backend: success with R messages
+	// quick varies one direction at a time (the other carries one fixed message); thorough crosses them
 	targetEnveloped := target == ProtocolGRPC || target == ProtocolGRPCWeb || (target == ProtocolConnect && !unaryKind)
-	backendComp := cfg.svcComp && verifChoose("respComp", 2) == 1
-	respMsgs := pickMsgs("resp", targetEnveloped, backendComp, unaryKind)
+	varyReq, varyResp := true, true
+	if verifTier() == 0 {
+		varyReq = verifChoose("direction", 2) == 0
+		varyResp = !varyReq
+	}
+	reqMsgs := []wireMsg{{abstract: []byte{'q'}}}
+	if varyReq {
+		reqMsgs = pickMsgs("req", clientEnveloped(cfg.client), cfg.clientComp, unaryKind)
+	}
+	backendComp := cfg.svcComp && varyResp && verifChoose("respComp", 2) == 1
+	respMsgs := []wireMsg{{abstract: []byte{'r'}}}
+	if varyResp {
+		respMsgs = pickMsgs("resp", targetEnveloped, backendComp, unaryKind)
+	}
 	p.backend.script = &respScript{msgs: respMsgs, comp: backendComp}
 	p.serve(reqMsgs)
 
